@@ -56,6 +56,21 @@ CHECKS = {
               "extrema/_store_maxmin path. A genuine defect found by this check was repaired (known_findings.json, fix: d921fe8)."),
         technique="TLA+ state machine over case histories (TLC exhaustive) + replay into cla.extrema/DR_Results; term export for uncertainty factors",
     ),
+    "C09": dict(
+        cat="model_checking",
+        text=("specs/ParPool.tla models mp.Pool.imap_unordered (chunksize 1) as Dispatch/Complete/Collect over LF tasks and W workers, "
+              "with the fdepsd read-modify-write row update; TLC checks for every interleaving AtMostOnce, ExactlyOnce, OwnRowOnly, "
+              "Confluence (the parent's result equals the serial result), InFlight and termination under weak fairness (quick: LF=4 "
+              "W=2,3 and LF=3 W=1; thorough adds LF=5 W=3 and LF=6 W=4), and exports every feasible completion order. Each order is "
+              "FORCED on the real pool through hook H1 (a turnstile at the workers' shared-array writes) and srs (6 stype x 4 ic x 3 "
+              "time x getresp, all peak methods) and fdepsd outputs are compared bit-for-bit with parallel='no'. The (pid, task, "
+              "ticket) events recorded at the linearisation point are validated as behaviours of the model (forced and natural runs)."),
+        ref="4/C09",
+        note=("Trusted: TLC; fork start method; visibility of RawArray writes after Pool exit; hook H1 (commit in MANIFEST.hooks) placed "
+              "around the writes. A turnstile time-out is exit 2 (machinery), never a violation. Differences that need an exact tie "
+              "between a cycle amplitude and a bin edge are not reachable through filtered random signals."),
+        technique="TLA+ pool model (TLC, all interleavings + liveness) + schedule forcing through a hook + trace membership validation",
+    ),
 }
 
 NOT_YET = {}
